@@ -92,6 +92,14 @@ def run(ctx, model_ok):
         proc = rng.choice([str(threads[0][1]), threads[0][2].decode() or 'Safari', 'Safari', 'xpcproxy'])
         cfgs = [{'color': False, 'filter_process': proc}, {'color': False, 'filter_tid': threads[0][0]},
                 {'color': False, 'filter_class': [4], 'filter_process': proc}, {'color': True}]
+        # nothing already reported is later changed: the trace objects handed out describe the same at the end of the request
+        chk = vlib.run_impl('run_api.py', {'cases': [{'file': f.hex(), 'cfg': {'color': False}, 'calls': ['traces', 'callstacks']}]})['results'][0]
+        ctx.evaluations += 1
+        for c in chk:
+            if c['err'] == 'ReportedObjectChangedLater':
+                ctx.failing.append({'input': {'file': f.hex(), 'call': c['call']}, 'expected': c['changed']['when_reported'],
+                                    'actual': c['changed']['at_the_end'],
+                                    'why': 'a trace that was already reported was changed by later input'})
         for cfg in cfgs:
             ks = [base + 64 * j for j in range(len(evs) + 1)]
             reqs = [{'file': f[:k].hex(), 'cfg': cfg, 'calls': ['formatted_traces']} for k in ks]
